@@ -12,7 +12,7 @@
      KnownClass_C02_sub reg t es      KNOWN FINDING ws-batch-entry-calls-subscription-method: WebSocket and some entry is a valid
                                       call to a subscription method *)
 From JV Require Import Base.Bytes Base.Dec Base.Utf8 Json.Json Json.JsonSer Json.JsonParse Json.JsonWf Model.Wire Model.RespSize
-  Model.Server Proofs.JsonFacts Proofs.WireFacts Proofs.ServerFacts.
+  Model.Server Gen.BatchGateGen Proofs.JsonFacts Proofs.WireFacts Proofs.ServerFacts.
 Local Open Scope N_scope.
 
 Theorem C02_gate : forall reg h t c b body, sniff t b = Some (false, body) -> (sc_batch c = BDisabled -> o_frames (handle reg h t c b) = [mk_response IdNull (PError batches_not_supported)] /\ o_log (handle reg h t c b) = []) /\ (forall n es, sc_batch c = BLimit n -> batch_elems body = Some es -> n < N.of_nat (length es) -> o_frames (handle reg h t c b) = [mk_response IdNull (PError (too_big_batch_request n))] /\ o_log (handle reg h t c b) = []) /\ (sc_batch c <> BDisabled -> batch_elems body = Some [] -> o_frames (handle reg h t c b) = [mk_response IdNull (PError invalid_request)] /\ o_log (handle reg h t c b) = []) /\ (sc_batch c <> BDisabled -> batch_elems body = None -> o_frames (handle reg h t c b) = [mk_response IdNull (PError parse_error)] /\ o_log (handle reg h t c b) = []).
@@ -50,6 +50,13 @@ Print Assumptions C02_sub_refuted.
 Theorem C02_seq_refuted_old : exists e r, is_object_text e = false /\ classify_entry_old e = ECall r /\ rq_method r = b#"echo" /\ KnownClass_C02_seq [e] /\ classify_entry e = EInvalid IdNull.
 Proof. exact c02_seq_refuted_old. Qed.
 Print Assumptions C02_seq_refuted_old.
+
+(* the batch prologue / epilogue are INTERPRETED lists read from handle_rpc_call, RpcService::batch and
+   BatchResponseBuilder::finish on every check (tools/translators/batch_gate.py, Gen/BatchGateGen.v): the order-sensitive
+   facts the theorems above rest on, stated on the generated lists themselves *)
+Theorem C02_gate_order : forall bc body, (bc = BDisabled -> run_gate batch_gate bc body = GReject batches_not_supported) /\ (bc <> BDisabled -> batch_elems body = None -> run_gate batch_gate bc body = GReject parse_error) /\ (forall n es, bc = BLimit n -> batch_elems body = Some es -> n < N.of_nat (length es) -> run_gate batch_gate bc body = GReject (too_big_batch_request n)) /\ (forall es, bc <> BDisabled -> batch_elems body = Some es -> (forall n, bc = BLimit n -> N.of_nat (length es) <= n) -> run_gate batch_gate bc body = GAdmit es) /\ (forall buf got_notification, run_epilogue batch_epilogue buf got_notification = if (Nat.leb (length buf) 1) && got_notification then Some FinSilent else Some (FinJson (match buf with [_] => mk_response IdNull (PError invalid_request) | _ => removelast buf ++ [x5d] end))).
+Proof. exact c02_gate_order. Qed.
+Print Assumptions C02_gate_order.
 
 (* ---------- non-vacuity ---------- *)
 Example C02_batch_example : o_frames (handle ex_reg ex_h Http ex_cfg b#"[{""jsonrpc"":""2.0"",""id"":1,""method"":""echo"",""params"":[1]}, {""jsonrpc"":""2.0"",""method"":""echo""}, 7, {""id"":""x""}, [""2.0"",5,""echo"",[1]]]") = [b#"[{""jsonrpc"":""2.0"",""id"":1,""result"":[1]},{""jsonrpc"":""2.0"",""id"":null,""error"":{""code"":-32600,""message"":""Invalid request""}},{""jsonrpc"":""2.0"",""id"":""x"",""error"":{""code"":-32600,""message"":""Invalid request""}},{""jsonrpc"":""2.0"",""id"":null,""error"":{""code"":-32600,""message"":""Invalid request""}}]"] /\ o_log (handle ex_reg ex_h Http ex_cfg b#"[{""jsonrpc"":""2.0"",""id"":1,""method"":""echo"",""params"":[1]}, {""jsonrpc"":""2.0"",""method"":""echo""}, 7]") = [(b#"echo", Some b#"[1]")].
